@@ -16,7 +16,7 @@ from __future__ import annotations
 
 from .. import terms as T
 from ..facts import (C, G, V, arg, bind_call, calls, events, returns, spec, yields,
-                     strip_conv)
+                     strip_conv, unobj)
 from ..symeval import mk_elem
 from . import common
 
@@ -90,8 +90,8 @@ def columns_provenance(ctx):
               found='insert under "col not in columns" for each of [bin1_id, bin2_id]' if ok_ins else 'missing',
               expected='columns.insert(0, col) for col in [bin1_id, bin2_id] if col not in columns',
               reason='a user column list without the id columns must still store both ids')
-    dflt = [e for e in events(fa, 'assign') if e.name == 'columns' and e.value[0] == 'list']
-    ok_d = any(set(x[1] for x in e.value[1] if x[0] == 'c') >= {'bin1_id', 'bin2_id', 'count'} for e in dflt)
+    dflt = [e for e in events(fa, 'assign') if e.name == 'columns' and unobj(e.value)[0] == 'list']
+    ok_d = any(set(x[1] for x in unobj(e.value)[1] if x[0] == 'c') >= {'bin1_id', 'bin2_id', 'count'} for e in dflt)
     ctx.check(ok_d, R, 'default-columns', ctx.where(fa), found=[T.show(e.value) for e in dflt],
               expected="['bin1_id', 'bin2_id', 'count']", reason='default column list')
 
